@@ -749,4 +749,439 @@ theorem nameLookup_abs (y : By) (i : Nat) :
     · simp only [hl, if_false]
       rfl
 
+/-! ### sortedness -/
+
+theorem sorted_iff (T : Spec.Tables) (cs : Nat → Out (List Nat)) :
+    Spec.sorted T cs = true ↔
+      ∀ h, h < T.names.length → ∃ s, Spec.nameOfHint T cs h = .ok s ∧
+        (h = 0 ∨ ∃ p, Spec.nameOfHint T cs (h - 1) = .ok p ∧ ¬ s < p) := by
+  unfold Spec.sorted
+  simp only [List.all_eq_true, List.mem_range]
+  constructor
+  · intro H h hh
+    have := H h hh
+    cases hs : Spec.nameOfHint T cs h with
+    | ok s =>
+      rw [hs] at this
+      simp only [Bool.or_eq_true, beq_iff_eq] at this
+      refine ⟨s, rfl, ?_⟩
+      rcases this with h0 | hp
+      · exact .inl h0
+      · cases hp' : Spec.nameOfHint T cs (h - 1) with
+        | ok p => rw [hp'] at hp; exact .inr ⟨p, rfl, by simpa using hp⟩
+        | _ => rw [hp'] at hp; cases hp
+    | _ => rw [hs] at this; cases this
+  · intro H h hh
+    obtain ⟨s, hs, hp⟩ := H h hh
+    rw [hs]
+    simp only [Bool.or_eq_true, beq_iff_eq]
+    rcases hp with h0 | ⟨p, hp, hlt⟩
+    · exact .inl h0
+    · right; rw [hp]; simpa using hlt
+
+theorem nameDetermined_iff (T : Spec.Tables) (cs : Nat → Out (List Nat)) :
+    Spec.nameDetermined T cs = true ↔
+      ∀ h, h < T.names.length → ∃ s, Spec.nameOfHint T cs h = .ok s ∧
+        (h = 0 ∨ ∃ p, Spec.nameOfHint T cs (h - 1) = .ok p ∧ p < s) := by
+  unfold Spec.nameDetermined
+  simp only [List.all_eq_true, List.mem_range]
+  constructor
+  · intro H h hh
+    have := H h hh
+    cases hs : Spec.nameOfHint T cs h with
+    | ok s =>
+      rw [hs] at this
+      simp only [Bool.or_eq_true, beq_iff_eq] at this
+      refine ⟨s, rfl, ?_⟩
+      rcases this with h0 | hp
+      · exact .inl h0
+      · cases hp' : Spec.nameOfHint T cs (h - 1) with
+        | ok p => rw [hp'] at hp; exact .inr ⟨p, rfl, by simpa using hp⟩
+        | _ => rw [hp'] at hp; cases hp
+    | _ => rw [hs] at this; cases this
+  · intro H h hh
+    obtain ⟨s, hs, hp⟩ := H h hh
+    rw [hs]
+    simp only [Bool.or_eq_true, beq_iff_eq]
+    rcases hp with h0 | ⟨p, hp, hlt⟩
+    · exact .inl h0
+    · right; rw [hp]; simpa using hlt
+
+/-- the name of hint `h`, `[]` when unreadable -/
+def By.nm (y : By) (h : Nat) : List Nat :=
+  match y.nameStr h with
+  | .ok s => s
+  | _ => []
+
+theorem mono_of_consecutive (nm : Nat → List Nat) (n : Nat)
+    (hc : ∀ h, 0 < h → h < n → ¬ nm h < nm (h - 1)) : ∀ j i, i ≤ j → j < n → nm i ≤ nm j := by
+  intro j
+  induction j with
+  | zero => intro i hi _; have : i = 0 := by omega
+            subst this; exact List.le_refl _
+  | succ j ih =>
+    intro i hi hj
+    by_cases he : i = j + 1
+    · subst he; exact List.le_refl _
+    · have h1 := ih i (by omega) (by omega)
+      have h2 : nm j ≤ nm (j + 1) := List.not_lt.1 (hc (j + 1) (by omega) hj)
+      exact List.le_trans h1 h2
+
+theorem strict_of_consecutive (nm : Nat → List Nat) (n : Nat)
+    (hc : ∀ h, 0 < h → h < n → nm (h - 1) < nm h) : ∀ j i, i < j → j < n → nm i < nm j := by
+  intro j
+  induction j with
+  | zero => intro i hi _; omega
+  | succ j ih =>
+    intro i hi hj
+    have h2 : nm j < nm (j + 1) := hc (j + 1) (by omega) hj
+    by_cases he : i = j
+    · subst he; exact h2
+    · exact List.lt_trans (ih i (by omega) (by omega)) h2
+
+theorem sorted_nm {y : By} (hs : Spec.sorted (tablesOf y) (cstrOf y.exp.v) = true) :
+    (∀ h, h < y.names.cnt → y.nameStr h = .ok (y.nm h)) ∧
+    (∀ i j, i ≤ j → j < y.names.cnt → y.nm i ≤ y.nm j) := by
+  rw [sorted_iff, tablesOf_names_length] at hs
+  have hr : ∀ h, h < y.names.cnt → y.nameStr h = .ok (y.nm h) := by
+    intro h hh
+    obtain ⟨s, hs1, _⟩ := hs h hh
+    rw [← nameStr_eq_spec] at hs1
+    unfold By.nm
+    rw [hs1]
+  refine ⟨hr, fun i j hij hj => mono_of_consecutive y.nm y.names.cnt ?_ j i hij hj⟩
+  intro h h0 hh
+  obtain ⟨s, hs1, hs2⟩ := hs h hh
+  rcases hs2 with h0' | ⟨p, hp, hlt⟩
+  · omega
+  · rw [← nameStr_eq_spec] at hs1 hp
+    rw [hr h hh] at hs1
+    rw [hr (h - 1) (by omega)] at hp
+    cases hs1; cases hp
+    exact hlt
+
+theorem determined_nm {y : By} (hs : Spec.nameDetermined (tablesOf y) (cstrOf y.exp.v) = true) :
+    (∀ h, h < y.names.cnt → y.nameStr h = .ok (y.nm h)) ∧
+    (∀ i j, i < j → j < y.names.cnt → y.nm i < y.nm j) := by
+  rw [nameDetermined_iff, tablesOf_names_length] at hs
+  have hr : ∀ h, h < y.names.cnt → y.nameStr h = .ok (y.nm h) := by
+    intro h hh
+    obtain ⟨s, hs1, _⟩ := hs h hh
+    rw [← nameStr_eq_spec] at hs1
+    unfold By.nm
+    rw [hs1]
+  refine ⟨hr, fun i j hij hj => strict_of_consecutive y.nm y.names.cnt ?_ j i hij hj⟩
+  intro h h0 hh
+  obtain ⟨s, hs1, hs2⟩ := hs h hh
+  rcases hs2 with h0' | ⟨p, hp, hlt⟩
+  · omega
+  · rw [← nameStr_eq_spec] at hs1 hp
+    rw [hr h hh] at hs1
+    rw [hr (h - 1) (by omega)] at hp
+    cases hs1; cases hp
+    exact hlt
+
+theorem determined_sorted {T : Spec.Tables} {cs : Nat → Out (List Nat)}
+    (h : Spec.nameDetermined T cs = true) : Spec.sorted T cs = true := by
+  rw [nameDetermined_iff] at h
+  rw [sorted_iff]
+  intro i hi
+  obtain ⟨s, hs, hp⟩ := h i hi
+  refine ⟨s, hs, ?_⟩
+  rcases hp with h0 | ⟨p, hp, hlt⟩
+  · exact .inl h0
+  · exact .inr ⟨p, hp, List.lt_asymm hlt⟩
+
+
+/-! ### binary search -/
+
+theorem lt_of_lt_of_le' {a b c : List Nat} (hab : a < b) (hbc : b ≤ c) : a < c :=
+  List.not_le.1 (fun hca : c ≤ a => (List.not_lt.2 hbc) (List.lt_of_le_of_lt hca hab))
+
+theorem nameStr_of_derva {y : By} {i : Nat} {c : Ref} (hi : i < y.names.cnt)
+    (hc : y.exp.v.dervaCStr (.rva (y.nameAt i)) = .ok c) : y.nameStr i = .ok (cstrBytes y.b c) := by
+  unfold By.nameStr By.nameOfHint
+  rw [if_pos hi, hc]
+  rfl
+
+theorem nameStr_of_derva_ne {y : By} {i : Nat} {s : List Nat} (hi : i < y.names.cnt)
+    (hr : y.nameStr i = .ok s) : ∃ c, y.exp.v.dervaCStr (.rva (y.nameAt i)) = .ok c ∧ cstrBytes y.b c = s := by
+  unfold By.nameStr By.nameOfHint at hr
+  rw [if_pos hi] at hr
+  exact mapOut_ok_iff.1 hr
+
+/-- the loop invariant of `By::name_`: every name below `lower` is smaller than the query, every
+name from `upper` on is greater; the loop ends with Null only if no name equals the query, and
+otherwise answers `hint h` for an `h` whose name is the query -/
+theorem nameLoop_spec (y : By) (q : List Nat) (nm : Nat → List Nat)
+    (hr : ∀ h, h < y.names.cnt → y.nameStr h = .ok (nm h))
+    (hm : ∀ i j, i ≤ j → j < y.names.cnt → nm i ≤ nm j)
+    (lower upper : Nat) (h1 : lower ≤ upper) (h2 : upper ≤ y.names.cnt)
+    (hlo : ∀ h, h < lower → nm h < q) (hup : ∀ h, upper ≤ h → h < y.names.cnt → q < nm h) :
+    ((∀ h, h < y.names.cnt → nm h ≠ q) ∧ y.nameLoop q lower upper = .err .null) ∨
+    (∃ h, h < y.names.cnt ∧ nm h = q ∧ y.nameLoop q lower upper = y.hint h) := by
+  fun_induction By.nameLoop y q lower upper with
+  | case1 lower =>
+    left
+    refine ⟨?_, rfl⟩
+    intro h hh he
+    by_cases hl : h < lower
+    · have := hlo h hl; rw [he] at this; exact List.lt_irrefl _ this
+    · have := hup h (by omega) hh; rw [he] at this; exact List.lt_irrefl _ this
+  | case2 lower upper hne hlt => omega
+  | case3 lower upper hne hlt i hi c hc s hqs ih =>
+    have hs : nm i = s := by
+      have := hr i hi; rw [nameStr_of_derva hi hc] at this; exact (Out.ok.inj this).symm
+    refine ih (by omega) (by omega) hlo ?_
+    intro h hih hh
+    exact lt_of_lt_of_le' (by rw [hs]; exact hqs) (hm i h hih hh)
+  | case4 lower upper hne hlt i hi c hc s hqs hsq ih =>
+    have hs : nm i = s := by
+      have := hr i hi; rw [nameStr_of_derva hi hc] at this; exact (Out.ok.inj this).symm
+    refine ih (by omega) (by omega) ?_ hup
+    intro h hh
+    exact List.lt_of_le_of_lt (hm h i (by omega) hi) (by rw [hs]; exact hsq)
+  | case5 lower upper hne hlt i hi c hc s hqs hsq hix =>
+    have hs : nm i = s := by
+      have := hr i hi; rw [nameStr_of_derva hi hc] at this; exact (Out.ok.inj this).symm
+    right
+    refine ⟨i, hi, ?_, ?_⟩
+    · rw [hs]; exact List.le_antisymm (List.not_lt.1 hqs) (List.not_lt.1 hsq)
+    · unfold By.hint; rw [if_pos hix]
+  | case6 lower upper hne hlt i hi c hc s hqs hsq hix =>
+    have hs : nm i = s := by
+      have := hr i hi; rw [nameStr_of_derva hi hc] at this; exact (Out.ok.inj this).symm
+    right
+    refine ⟨i, hi, ?_, ?_⟩
+    · rw [hs]; exact List.le_antisymm (List.not_lt.1 hqs) (List.not_lt.1 hsq)
+    · unfold By.hint; rw [if_neg hix]
+  | case7 lower upper hne hlt i hi e hc =>
+    obtain ⟨c, hc', _⟩ := nameStr_of_derva_ne hi (hr i hi); rw [hc] at hc'; cases hc'
+  | case8 lower upper hne hlt i hi s hc =>
+    obtain ⟨c, hc', _⟩ := nameStr_of_derva_ne hi (hr i hi); rw [hc] at hc'; cases hc'
+  | case9 lower upper hne hlt i hi s hc =>
+    obtain ⟨c, hc', _⟩ := nameStr_of_derva_ne hi (hr i hi); rw [hc] at hc'; cases hc'
+  | case10 lower upper hne hlt i hi hc =>
+    obtain ⟨c, hc', _⟩ := nameStr_of_derva_ne hi (hr i hi); rw [hc] at hc'; cases hc'
+  | case11 lower upper hne hlt i hi => omega
+
+theorem name_sorted (y : By) (q : List Nat) (hs : Spec.sorted (tablesOf y) (cstrOf y.exp.v) = true) :
+    ((∀ h, y.nameStr h ≠ .ok q) ∧ y.name q = .err .null) ∨
+    (∃ h, h < y.names.cnt ∧ y.nameStr h = .ok q ∧ y.name q = y.hint h) := by
+  obtain ⟨hr, hm⟩ := sorted_nm hs
+  rcases nameLoop_spec y q y.nm hr hm 0 y.names.cnt (Nat.zero_le _) (Nat.le_refl _)
+      (fun h hh => by omega) (fun h h1 h2 => by omega) with ⟨hne, hnull⟩ | ⟨h, hh, he, hres⟩
+  · left
+    refine ⟨?_, hnull⟩
+    intro h hq
+    have hh := nameStr_ok_lt hq
+    rw [hr h hh] at hq
+    exact hne h hh (Out.ok.inj hq)
+  · right
+    exact ⟨h, hh, by rw [hr h hh, he], hres⟩
+
+/-- sorted without duplicates: binary and linear search are the same function -/
+theorem name_eq_nameLinear (y : By) (q : List Nat)
+    (hd : Spec.nameDetermined (tablesOf y) (cstrOf y.exp.v) = true) : y.name q = y.nameLinear q := by
+  obtain ⟨hr, hst⟩ := determined_nm hd
+  rcases name_sorted y q (determined_sorted hd) with ⟨hne, hnull⟩ | ⟨h, hh, he, hres⟩
+  · rw [hnull]
+    unfold By.nameLinear
+    rw [nameLinearLoop_none]
+    intro h _ _
+    exact hne h
+  · rw [hres]
+    unfold By.nameLinear
+    rw [nameLinearLoop_first y q _ 0 h (Nat.zero_le _) (by omega) he]
+    intro h' _ hlt hq
+    have h1 := hr h hh
+    have h2 := hr h' (by omega)
+    rw [he] at h1; rw [hq] at h2
+    have := hst h' h hlt hh
+    rw [← Out.ok.inj h1, ← Out.ok.inj h2] at this
+    exact List.lt_irrefl _ this
+
+theorem name_abs (y : By) (q : List Nat)
+    (hd : Spec.nameDetermined (tablesOf y) (cstrOf y.exp.v) = true) :
+    mapOut (Export.abs y.b) (y.name q) = Spec.name (tablesOf y) (cstrOf y.exp.v) q := by
+  rw [name_eq_nameLinear y q hd]
+  exact nameLinear_abs y q
+
+/-! ### `check_sorted` -/
+
+theorem nm_of_ok {y : By} {h : Nat} {s : List Nat} (hs : y.nameStr h = .ok s) : y.nm h = s := by
+  unfold By.nm; rw [hs]
+
+theorem checkSortedLoop_step (y : By) (n h : Nat) (last : List Nat) :
+    y.checkSortedLoop (n + 1) h last =
+      (y.nameStr h).bind fun s => if s < last then .ok false else y.checkSortedLoop n (h + 1) s := by
+  rw [checkSortedLoop_eq]
+  unfold By.nameStr
+  cases y.nameOfHint h <;> rfl
+
+theorem checkSortedLoop_true (y : By) : ∀ n h last, h + n = y.names.cnt →
+    (y.checkSortedLoop n h last = .ok true ↔
+      ∀ h', h ≤ h' → h' < y.names.cnt →
+        ∃ s, y.nameStr h' = .ok s ∧ ¬ s < (if h' = h then last else y.nm (h' - 1))) := by
+  intro n
+  induction n with
+  | zero =>
+    intro h last hn
+    constructor
+    · intro _ h' h1 h2; omega
+    · intro _; rfl
+  | succ n ih =>
+    intro h last hn
+    rw [checkSortedLoop_step]
+    cases hs : y.nameStr h with
+    | ok s =>
+      show (if s < last then Out.ok false else y.checkSortedLoop n (h + 1) s) = Out.ok true ↔ _
+      by_cases hlt : s < last
+      · rw [if_pos hlt]
+        constructor
+        · intro hc; cases hc
+        · intro H
+          obtain ⟨s', hs', hn'⟩ := H h (Nat.le_refl _) (by omega)
+          rw [hs] at hs'; cases hs'
+          rw [if_pos rfl] at hn'
+          exact absurd hlt hn'
+      · rw [if_neg hlt, ih (h + 1) s (by omega)]
+        constructor
+        · intro H h' h1 h2
+          by_cases he : h' = h
+          · subst he; exact ⟨s, hs, by rw [if_pos rfl]; exact hlt⟩
+          · obtain ⟨s', hs', hn'⟩ := H h' (by omega) h2
+            refine ⟨s', hs', ?_⟩
+            rw [if_neg he]
+            by_cases he' : h' = h + 1
+            · rw [if_pos he'] at hn'
+              subst he'
+              rw [Nat.add_sub_cancel, nm_of_ok hs]; exact hn'
+            · rw [if_neg he'] at hn'; exact hn'
+        · intro H h' h1 h2
+          obtain ⟨s', hs', hn'⟩ := H h' (by omega) h2
+          refine ⟨s', hs', ?_⟩
+          rw [if_neg (by omega)] at hn'
+          by_cases he' : h' = h + 1
+          · rw [if_pos he']
+            subst he'
+            rw [Nat.add_sub_cancel, nm_of_ok hs] at hn'; exact hn'
+          · rw [if_neg he']; exact hn'
+    | _ =>
+      constructor
+      · intro hc; cases hc
+      · intro H
+        obtain ⟨s', hs', _⟩ := H h (Nat.le_refl _) (by omega)
+        rw [hs] at hs'; cases hs'
+
+/-- `check_sorted` answers `Ok(true)` exactly when every name is readable and the names are
+non-decreasing in bytewise lexicographic order -/
+theorem checkSorted_true_iff (y : By) :
+    y.checkSorted = .ok true ↔ Spec.sorted (tablesOf y) (cstrOf y.exp.v) = true := by
+  unfold By.checkSorted
+  rw [checkSortedLoop_true y _ 0 [] (by omega), sorted_iff, tablesOf_names_length]
+  constructor
+  · intro H h hh
+    obtain ⟨s, hs, hn⟩ := H h (Nat.zero_le _) hh
+    refine ⟨s, by rw [← nameStr_eq_spec]; exact hs, ?_⟩
+    by_cases h0 : h = 0
+    · exact .inl h0
+    · right
+      obtain ⟨p, hp, _⟩ := H (h - 1) (Nat.zero_le _) (by omega)
+      refine ⟨p, by rw [← nameStr_eq_spec]; exact hp, ?_⟩
+      rw [if_neg h0, nm_of_ok hp] at hn
+      exact hn
+  · intro H h _ hh
+    obtain ⟨s, hs, hp⟩ := H h hh
+    rw [← nameStr_eq_spec] at hs
+    refine ⟨s, hs, ?_⟩
+    rcases hp with h0 | ⟨p, hp, hlt⟩
+    · rw [if_pos h0]; exact List.not_lt_nil _
+    · rw [← nameStr_eq_spec] at hp
+      by_cases h0 : h = 0
+      · rw [if_pos h0]; exact List.not_lt_nil _
+      · rw [if_neg h0, nm_of_ok hp]; exact hlt
+
+/-! ### hint with name fallback, import descriptors -/
+
+theorem hintName_eq (y : By) (h : Nat) (q : List Nat) :
+    y.hintName h q =
+      if (y.hint h).isOk = true ∧ y.nameStr h = .ok q then y.hint h else y.name q := by
+  unfold By.hintName By.nameStr
+  rcases hint_okOrErr y h with ⟨e, he⟩ | ⟨e, he⟩ <;> rw [he] <;> dsimp only
+  · rcases nameOfHint_okOrErr y h with ⟨c, hc⟩ | ⟨e', hc⟩ <;> rw [hc] <;> dsimp only
+    · by_cases hq : cstrBytes y.b c = q
+      · have : (Out.ok e : Out Export).isOk = true ∧ mapOut (cstrBytes y.b) (Out.ok c) = Out.ok q :=
+          ⟨rfl, by show Out.ok _ = _; rw [hq]⟩
+        rw [if_pos hq, if_pos this]
+      · have : ¬ ((Out.ok e : Out Export).isOk = true ∧ mapOut (cstrBytes y.b) (Out.ok c) = Out.ok q) :=
+          fun h' => hq (Out.ok.inj h'.2)
+        rw [if_neg hq, if_neg this]
+    · have : ¬ ((Out.ok e : Out Export).isOk = true ∧ mapOut (cstrBytes y.b) (Out.err e' : Out Ref) = Out.ok q) :=
+        fun h' => by cases h'.2
+      rw [if_neg this]
+  · have : ¬ ((Out.err e : Out Export).isOk = true ∧ mapOut (cstrBytes y.b) (y.nameOfHint h) = Out.ok q) :=
+      fun h' => by cases h'.1
+    rw [if_neg this]
+
+theorem hintName_abs (y : By) (h : Nat) (q : List Nat)
+    (hd : Spec.nameDetermined (tablesOf y) (cstrOf y.exp.v) = true) :
+    mapOut (Export.abs y.b) (y.hintName h q) = Spec.hintName (tablesOf y) (cstrOf y.exp.v) h q := by
+  unfold Spec.hintName
+  rw [← hint_abs, ← nameStr_eq_spec, ← name_abs y q hd]
+  unfold By.hintName By.nameStr
+  rcases hint_okOrErr y h with ⟨e, he⟩ | ⟨e, he⟩ <;> rw [he]
+  · rcases nameOfHint_okOrErr y h with ⟨c, hc⟩ | ⟨e', hc⟩ <;> rw [hc]
+    · show mapOut _ (if cstrBytes y.b c = q then Out.ok e else y.name q) =
+        if cstrBytes y.b c = q then Out.ok (Export.abs y.b e) else mapOut _ (y.name q)
+      split <;> rfl
+    · rfl
+  · rfl
+
+theorem import_abs (y : By) (i : ImportQ)
+    (hd : Spec.nameDetermined (tablesOf y) (cstrOf y.exp.v) = true) :
+    mapOut (Export.abs y.b) (y.import i) =
+      match i with
+      | .byName h q => Spec.hintName (tablesOf y) (cstrOf y.exp.v) h q
+      | .byOrdinal o => Spec.ordinal (tablesOf y) (cstrOf y.exp.v) o := by
+  cases i with
+  | byName h q => exact hintName_abs y h q hd
+  | byOrdinal o => exact ordinal_abs y o
+
+/-! ### get_proc_address -/
+
+theorem getProcAddress_abs (v : View) (q : Query) :
+    getProcAddress v q =
+      Spec.procAddress v.imageBase (sizeOfImage v.b) v.fmt.vaLimit (mapOut (Export.abs v.b) (getExport v q)) := by
+  unfold getProcAddress
+  cases getExport v q with
+  | ok e =>
+    cases e with
+    | symbol r => rfl
+    | forward r => rfl
+  | _ => rfl
+
+/-! ### null sub-tables -/
+
+theorem slice_null (v : View) (min a : Nat) : v.slice 0 min a = .err .null := by
+  unfold View.slice
+  cases v.kind <;> simp [sliceFile, sliceSection]
+
+theorem dervaSlice_null (v : View) (size a len : Nat) (h : size * len < 18446744073709551616) :
+    v.dervaSlice (.rva 0) size a len = .err .null := by
+  unfold View.dervaSlice
+  rw [if_neg (by omega), at_rva, slice_null]
+
+theorem mkTab_null (cnt : Nat) : mkTab (.err .null) cnt = .ok ⟨0, 0, true⟩ := rfl
+
+theorem by_tables {e : Exports} {y : By} (h : e.by = .ok y) :
+    mkTab e.functions e.nFns = .ok y.fns ∧ mkTab e.names e.nNames = .ok y.names ∧
+    mkTab e.nameIndices e.nNames = .ok y.idx := by
+  unfold Exports.by at h
+  obtain ⟨f, hf, h⟩ := bind_eq_ok h
+  obtain ⟨n, hn, h⟩ := bind_eq_ok h
+  obtain ⟨i, hi, h⟩ := bind_eq_ok h
+  cases h
+  exact ⟨hf, hn, hi⟩
+
 end Pelite.Exports
